@@ -754,6 +754,13 @@ class Interp(object):
 
     def join(self, name, branches, t, handled=False):
         fails = [b for b in branches if not b.ok]
+        for b in branches:
+            # in-band conventions of the engine (recorded findings) also matter when another branch fails: a branch
+            # output with an "Error" member counts as a failure of that branch there
+            if b.ok and isinstance(b.value, dict) and b.value.get("Error"):
+                self.flags.inband_error = True
+            if b.ok and b.value in ("__CAUGHT__", "__TERMINATED__"):
+                self.flags.marker_value = True
         if fails:
             tmin = min(b.t for b in fails)
             first = [b for b in fails if b.t == tmin]
